@@ -94,6 +94,12 @@ func observable(p *secp256k1.Point) string { return encState(p) }
 func (w *World) opDecode() {
 	r := w.pickPoint("recv")
 	enc, kind := w.genEncoding("dec")
+	// the encoding that was decoded successfully last time, once more (into
+	// whatever receiver was drawn): what was decoded before must not matter
+	if w.lastGoodEnc != nil && w.t.Chance("ops", "dec.again", 1, 4) {
+		enc, kind = append([]byte(nil), w.lastGoodEnc...), "valid"
+		w.r.Probe("decode_same_encoding_again")
+	}
 	method := w.t.Choose("ops", "dec.method", 4)
 	if kind == "other-format" {
 		// feed a compressed encoding to the uncompressed decoder and vice versa
@@ -162,6 +168,13 @@ func (w *World) opDecode() {
 		w.r.Violate("C18", "nil-without-error", name, w.step, "%s returned (nil, nil)", desc)
 	}
 	w.adopt(r, name)
+	// the same bytes decoded again give the same point (whether a decoder
+	// returns the encoded point at all is C06's business and is only
+	// counted here)
+	if w.lastGoodEnc != nil && bytes.Equal(enc, w.lastGoodEnc) && observable(p) != w.lastGoodObs {
+		w.r.Probe("same_encoding_decoded_to_a_different_point")
+	}
+	w.lastGoodEnc, w.lastGoodObs = append([]byte(nil), enc...), observable(p)
 	// the decoded point must not depend on the caller's buffer afterwards
 	got := observable(p)
 	for i := range src {
